@@ -1037,14 +1037,14 @@ example : replaceNodes (cfgOf false false false false false false true) (st0 exR
 2⁷ settings of copy / skippable / overriding / merge_children / merge_leaves / delete_children /
 with_full_path, for same-tree and tree-to-tree calls, for every tree (no hypothesis on names or
 separators): the pre-order entry list (path, object identity, attributes) of the old destination tree,
-restricted to the entries that lie neither below the from-node (same-tree call) nor below the existing
-destination, is a **sublist** of the entry list of the result. -/
+restricted to the entries that lie neither below the from-node (same-tree SHIFT; a copy leaves its origin
+alone) nor below the existing destination, is a **sublist** of the entry list of the result. -/
 
 /-- one step of the loop -/
 theorem frame_all_flags_step (cfg : Cfg) (st st' : St) (pr : Str × Option Str) (fp : List Str) (F : Tree)
     (hres : resolveFrom cfg st pr.1 = .ok (some (fp, F))) (h : step cfg st pr = .ok st') :
     ((flat st.dst).filter (fun e =>
-      !touched (if st.src.isNone then some fp else none) (destHandle cfg st pr.2) e)).Sublist
+      !touched (if st.src.isNone && !cfg.copy then some fp else none) (destHandle cfg st pr.2) e)).Sublist
       (flat st'.dst) :=
   Modify.step_sub hres h
 
@@ -1053,7 +1053,7 @@ theorem frame_all_flags (cfg : Cfg) (st st' : St) (pr : Str × Option Str) (fp :
     (hres : resolveFrom cfg st (norm cfg pr).1 = .ok (some (fp, F)))
     (h : copyOrShift cfg st [pr] = .ok st') :
     ((flat st.dst).filter (fun e =>
-      !touched (if st.src.isNone then some fp else none) (destHandle cfg st (norm cfg pr).2) e)).Sublist
+      !touched (if st.src.isNone && !cfg.copy then some fp else none) (destHandle cfg st (norm cfg pr).2) e)).Sublist
       (flat st'.dst) := by
   unfold copyOrShift at h
   split at h
@@ -1069,7 +1069,7 @@ theorem frame_all_flags (cfg : Cfg) (st st' : St) (pr : Str × Option Str) (fp :
 theorem frame_all_flags_mem (cfg : Cfg) (st st' : St) (pr : Str × Option Str) (fp : List Str) (F : Tree)
     (hres : resolveFrom cfg st (norm cfg pr).1 = .ok (some (fp, F)))
     (h : copyOrShift cfg st [pr] = .ok st') (e : Entry) (he : e ∈ flat st.dst)
-    (hout : touched (if st.src.isNone then some fp else none) (destHandle cfg st (norm cfg pr).2) e = false) :
+    (hout : touched (if st.src.isNone && !cfg.copy then some fp else none) (destHandle cfg st (norm cfg pr).2) e = false) :
     e ∈ flat st'.dst :=
   (frame_all_flags cfg st st' pr fp F hres h).subset (List.mem_filter.2 ⟨he, by rw [hout]; rfl⟩)
 
